@@ -1872,6 +1872,17 @@ impl Gen {
                 }
                 let r = self.ret_stmt(d);
                 self.pop_scope();
+                // `c && return v;` / `c || return v;`: the early exit as the right operand of a
+                // short-circuit operator (it runs only if the left operand does not decide)
+                if stmts.is_empty() && self.rng.chance(1, 4) {
+                    let op = if self.rng.bool() { BinOp::And } else { BinOp::Or };
+                    let mut r = r;
+                    r.ty = Ty::Bool;
+                    self.tag("stmt:early-return".into());
+                    self.tag(format!("stmt:short-circuit-return:{}", op.sym()));
+                    out.push(Stmt::Expr(Expr::new(Ty::Bool, EK::Bin(op, Box::new(c), Box::new(r)))));
+                    return;
+                }
                 let b = if self.rng.bool() {
                     stmts.push(Stmt::Expr(r));
                     Block { stmts, tail: None }
